@@ -765,6 +765,9 @@ Record stages (g : peerset) (all : list event) (s : hg) : Prop := {
   sg_f3 : failed (decide_round_received (decide_fame (divide_rounds s))) = false;
   sg_i3 : cinv g None (decide_round_received (decide_fame (divide_rounds s)));
   sg_fa3 : from_attempts (decide_round_received (decide_fame (divide_rounds s))) all;
+  sg_r3 : rinv (decide_round_received (decide_fame (divide_rounds s)));
+  sg_c3 : gcore all (decide_round_received (decide_fame (divide_rounds s)));
+  sg_pd3 : pdinv g all (decide_round_received (decide_fame (divide_rounds s)));
   sg_eq : run_consensus s = process_decided_rounds (decide_round_received (decide_fame (divide_rounds s)));
   sg_f4 : failed (run_consensus s) = false;
   sg_l4 : lce_ok (run_consensus s)
@@ -782,6 +785,9 @@ Proof.
      failed (decide_round_received (decide_fame (divide_rounds s))) = false ->
      cinv g None (decide_round_received (decide_fame (divide_rounds s))) ->
      from_attempts (decide_round_received (decide_fame (divide_rounds s))) all ->
+     rinv (decide_round_received (decide_fame (divide_rounds s))) ->
+     gcore all (decide_round_received (decide_fame (divide_rounds s))) ->
+     pdinv g all (decide_round_received (decide_fame (divide_rounds s))) ->
      failed (process_decided_rounds (decide_round_received (decide_fame (divide_rounds s)))) = false /\
      lce_ok (process_decided_rounds (decide_round_received (decide_fame (divide_rounds s)))) -> P) -> P).
   { intros P HP.
@@ -855,7 +861,7 @@ Proof.
   assert (Hp3 : forall pr, In pr (pending s3) -> get_round s3 (fst pr) <> None).
   { intros [r d] Hpr. destruct (r_pend _ (proj1 R3) r d Hpr) as [ri [Hri _]]. cbn [fst]. rewrite Hri. discriminate. }
   apply HP; try assumption. apply (g_from _ _ C3). apply (process_decided_rounds_nofail g all s3 NA PD3 Hf3 Hp3). }
-  apply Main. intros F1 R1 I1 G1 F2 R2 I2 F3 I3 FA3 [F4 L4].
+  apply Main. intros F1 R1 I1 G1 F2 R2 I2 F3 I3 FA3 R3 C3 PD3 [F4 L4].
   assert (Eq : run_consensus s = process_decided_rounds (decide_round_received (decide_fame (divide_rounds s)))).
   { unfold run_consensus. rewrite F1, F2, F3. reflexivity. }
   constructor; try assumption; rewrite Eq; assumption.
@@ -867,7 +873,7 @@ Lemma run_consensus_nofail g all n s :
   failed (run_consensus s) = false /\ lce_ok (run_consensus s).
 Proof.
   intros NA C F D Hin Pn I LA R Hf Lce.
-  destruct (run_consensus_stages g all n s NA (Build_post_ins g all n s C F D Hin Pn I LA R Hf Lce)) as [_ _ _ _ _ _ _ _ _ _ _ A B].
+  destruct (run_consensus_stages g all n s NA (Build_post_ins g all n s C F D Hin Pn I LA R Hf Lce)) as [_ _ _ _ _ _ _ _ _ _ _ _ _ _ A B].
   auto.
 Qed.
 
